@@ -486,10 +486,22 @@ def c07(ctx, api):
         consts2 = dict(consts, Gates=0, NCallSets=8)
         st, summ = api['run_tlc_to_harness'](ctx, 'race', 'APIConc', cfg(constants=consts2), timeout=3000,
                                              harness_args=['-only', 'race', '-timeout', '120s', '-workers', '4'])
+        racest, racesumm = st, summ
+        # every function next to literals (GenApply) and every call of the function catalogue (GenCall): a freshly compiled
+        # expression shared by 4 goroutines released together on one shared document, in the -race build
+        ctx['harness_env'] = {'GORACE': 'halt_on_error=1 exitcode=66', 'VERIF_SHARED': '4'}
+        st2, summ2 = api['run_tlc_to_harness'](ctx, 'shared-apply', 'GenApply', cfg(constants={'Emit': 'TRUE', 'Prop': '"C07"'}), timeout=1500,
+                                               harness_args=['-timeout', '30s'])
+        st3, summ3 = api['run_tlc_to_harness'](ctx, 'shared-call', 'GenCall',
+                                               cfg(constants={'Emit': 'TRUE', 'Prop': '"C07"', 'Small': 7 if thorough else 3}), timeout=3000,
+                                               harness_args=['-timeout', '30s'])
     finally:
         ctx['harness'] = saved
         ctx['harness_env'] = {}
-    acc.add('the same call sets from 8 goroutines x %d rounds, ungated, in a -race build of the library' % consts['Rounds'], st, summ)
+    acc.add('the same call sets from 8 goroutines x %d rounds, ungated, in a -race build of the library' % consts['Rounds'], racest, racesumm)
+    acc.add('GenApply in the -race build: every function x position of @ x pool literals (incl. 40-element literals), each expression compiled '
+            'afresh and first evaluated by 4 goroutines at once on one shared document', st2, summ2)
+    acc.add('GenCall in the -race build: every function x argument tuples, same sharing', st3, summ3)
     return acc.result('a case is one complete interleaving (schedule) of the APIConc machine, or one ungated call set under the race '
                       'detector; non-trivial when every call has a single admissible outcome',
                       extra={'model_checks': ['Pure in every interleaved state'],
